@@ -247,7 +247,7 @@ func (e *FieldExpression) isEvaluable(msg proto.Message) bool {
 
 	// Prevent snake_case (and capitalised) fields, since all FHIRPath fields need to be in
 	// camelCase. Acronyms inside a name (carrierAIDC) are fine.
-	if strings.Contains(e.FieldName, "_") || strcase.ToLowerCamel(e.FieldName[:1]) != e.FieldName[:1] {
+	if e.FieldName == "" || strings.Contains(e.FieldName, "_") || strcase.ToLowerCamel(e.FieldName[:1]) != e.FieldName[:1] {
 		return false
 	}
 
